@@ -519,12 +519,17 @@ def load_strict(gname, label, data):
     path = os.path.join(d, "strict.img")
     with open(path, "wb") as f:
         f.write(data)
+    lf0 = counting_lexer()
     try:
-        want_m = pvl.loads(label, grammar=_grammar(gname), lexer_fn=counting_lexer())
+        want_m = pvl.loads(label, grammar=_grammar(gname), lexer_fn=lf0)
     except BaseException as e:
         return ("skip", f"label alone does not load: {type(e).__name__}")
     want = nm.canon(want_m)
     end_pos = len(label) - 3
+    if lf0.stats["maxpos"] != end_pos:
+        # (as in load_all_ways) the final END is not read as the END statement under
+        # this grammar - it sits in a comment, say - so what follows belongs to the label
+        return ("skip", "the label's last word is not its END statement")
     try:
         whole = data.decode("utf-8")
     except UnicodeDecodeError:
